@@ -465,13 +465,16 @@ LEVEL = {"C01": "exploration", "C08": "exploration", "C09": "fault_enumeration",
 RULE = {
     "C01": "seeded histories (WPT corpus, URL grammar, mutation, setter sequences) executed twice on both URL types: as shipped "
            "and with a random subset of shortcut-decline (buggify) sites firing; observations must be identical. A case is "
-           "non-trivial when at least one decline actually fired; distinct = distinct operation sequences (hash of the op text).",
+           "non-trivial when at least one decline actually fired; distinct = distinct operation sequences (hash of the op text). The first "
+           "step of every history (a parse) is also compared with the reference model of the Standard's basic URL parser (sim/refurl.h); "
+           "counters model.parses_checked / model.parses_successful say how many.",
     "C14": "seeded (pattern, input) pairs (WPT corpus + pattern generator) evaluated as shipped and with site B12 forcing "
            "shortcut components to REGEXP; plus test/exec/match coherence and component-input == parser getters. Non-trivial: "
            "at least one component was forced; distinct = distinct (pattern, input) op text.",
     "C15": "seeded single-component pattern dictionaries (byte sweeps over the simple-hostname/pathname classes, IPv4-shaped "
-           "hosts, IDN, ports, base URLs) constructed as shipped and with canonicaliser shortcuts declining. Non-trivial: a "
-           "decline fired; distinct = distinct op text.",
+           "hosts, IDN, ports, base URLs) constructed as shipped and with canonicaliser shortcuts declining; one run in five is an "
+           "equivalent-construction pair instead (base-URL inheritance vs the base's components spelled out; default port vs empty port; "
+           "counters pair.*). Non-trivial: a decline fired; distinct = distinct op text.",
     "C09": "seeded histories (parse [+base] then up to 6 setters/clears) run under EVERY limit L in [0, max size involved + 2] "
            "(boundary set when that exceeds 330) on both URL types, each step compared with the same step from the same "
            "pre-state under no limit. Non-trivial: the limit changed the outcome of at least one (history, L) pair; distinct = "
@@ -627,16 +630,18 @@ def run_property(prop, tier):
 
 
 ASSUME = {
-    "C01": ["decides sentence 3 only: the general path is the reference for the shortcut; conformance of the general path to "
-            "the WHATWG Standard is not decided", "inputs are valid UTF-8", "buggify sites decline only where callers already "
-            "fall back (re-established on the WPT corpora in setup)"],
+    "C01": ["the general path is the reference for the shortcut (sentence 3); the reference model sim/refurl.h is the reference for "
+            "parse results (sentences 1-2): trusted, validated against the 3,617 WPT url cases and 2M generated inputs (0 differences on "
+            "the pinned tree); UTS #46 of non-ASCII / xn-- domains is delegated to ada::idna (property C06); origin and setters are not modelled",
+            "inputs are valid UTF-8", "buggify sites decline only where callers already fall back (re-established on the WPT corpora in setup)"],
     "C08": ["inputs are valid UTF-8", "limit values above 3*size+2 are represented by 'unlimited' and 32 random values"],
     "C09": ["the library under no limit is the executable reference for 'behaves exactly as with no limit'",
             "get_origin() is outside the statement (not a URL handed out)"],
     "C13": ["ThreadSanitizer's happens-before model stands in for weak-memory executions", "std::bad_alloc from container growth "
             "is not injected", "schedule points are the hook sites plus operation boundaries; code between two sites runs atomically"],
     "C14": ["libstdc++ std::regex is the regex provider (trusted base; patterns restricted to ASCII + percent escapes)"],
-    "C15": ["decides the shortcut clause only; the slow canonicaliser is the reference"],
+    "C15": ["decides the sentence 'shortcuts, default-port elision and base-URL inheritance never change the outcome'; the slow "
+            "canonicaliser is the reference for the shortcuts, two equivalent constructions of the same library for the other two"],
     "C18": ["same compiler (g++ 12) for all five configurations; the host CPU supports SSSE3 and AVX-512BW/VL"],
 }
 
